@@ -303,6 +303,10 @@ def limit_guards():
                     elif isinstance(last, ast.Return) and fn in ("get_size_of_locals", "get_buffer", "_get_buffer"):
                         ok = True
                         detail = f"unset limit short-circuits in {fn}"
+                    elif len(anc.body) == 1 and isinstance(last, ast.Return) and last.value is None and not anc.orelse and flow.dotted(anc.test).replace(" ", "").endswith(node.attr + "isNone"):
+                        # `if <limit> is None: return` in a procedure: an unset limit skips the check
+                        ok = True
+                        detail = "unset limit skips the guard (bare return)"
                     break
             if not ok and fn in ("get_buffer", "_get_buffer"):
                 par = pm.get(node)
@@ -311,7 +315,7 @@ def limit_guards():
                 if par is not None and flow.dotted(par.func) == "LimitedStringIO":
                     ok, detail = True, "budget of a LimitedStringIO"
             obs.append(flow.ob(f"{where}:limit-read-only-guards-abort", ok, detail, replay_schema="code", replay_extra={"code": REPLAY}))
-    obs.append(flow.ob("limit-reads-found", n >= 10, f"{n} limit reads"))
+    obs.append(flow.ob("limit-reads-found", n >= 4, f"{n} limit reads"))
     return obs
 
 
